@@ -7,8 +7,8 @@ from props import base
 from props.base import Context  # noqa: F401
 
 PID = 'C14'
-TIE_MODULES = ['DiffxVerif.Tie.Hunks']
-NEEDS = ['hunks']
+TIE_MODULES = ['DiffxVerif.Tie.Hunks', 'DiffxVerif.Tie.RegexHunks']
+NEEDS = ['hunks', 're_hunks']
 ASSUMPTIONS = [
     "CPython's re engine is environment: the hunk-header regex is re-expressed as Diffx.Hunks.matchHeader and validated against re on every run (exhaustive line lists over a 14-line alphabet + structured random)",
     'Python int() digit limit (4300) is modelled as Diffx.Hunks.maxIntDigits',
